@@ -20,13 +20,15 @@ def asOptVal (j : Json) : R (Option Val) := if j.isNull then pure none else some
 def asValList (j : Json) : R (List Val) := do (← asArr j).mapM asVal
 
 def jAttrs (a : Attrs) : Json :=
-  Json.mkObj [("isStart", jOpt jBool a.isStart), ("isFinal", jOpt jBool a.isFinal), ("label", jOpt jVal a.label)]
+  Json.mkObj [("isStart", jOpt jBool a.isStart), ("isFinal", jOpt jBool a.isFinal), ("label", jOpt jVal a.label),
+    ("initialStack", jOpt (fun (t : List Char) => Json.str (String.ofList t)) a.initialStack)]
 
 def asAttrs (j : Json) : R Attrs := do
   let s := fieldD j "isStart" Json.null
   let f := fieldD j "isFinal" Json.null
   let l := fieldD j "label" Json.null
-  pure { isStart := (← if s.isNull then pure none else some <$> asBool s),
+  let i := fieldD j "initialStack" Json.null
+  pure { initialStack := (← if i.isNull then pure none else (fun (x : String) => some x.toList) <$> asStr i), isStart := (← if s.isNull then pure none else some <$> asBool s),
          isFinal := (← if f.isNull then pure none else some <$> asBool f),
          label := (← asOptVal l) }
 
